@@ -204,6 +204,143 @@ fn hash_one() {
     core::mem::forget(a);
 }
 
+// ---- unbounded (class U) contracts of Hash and Display: recorders that keep the POINTER and
+// the length of what they are handed instead of copying bytes, so nothing walks the text and
+// the length stays symbolic. Together with `view.as_str_is_the_text` (the slice is the text,
+// all storage kinds, all lengths) they say: the hasher receives exactly the text's bytes, then
+// 0xff - what `str` / `String` feed; the formatter's sink receives exactly the text, once.
+struct PtrHasher {
+    n: usize,
+    p0: *const u8,
+    l0: usize,
+    l1: usize,
+    b1: u8,
+}
+impl Hasher for PtrHasher {
+    fn finish(&self) -> u64 {
+        0
+    }
+    fn write(&mut self, bytes: &[u8]) {
+        if self.n == 0 {
+            self.p0 = bytes.as_ptr();
+            self.l0 = bytes.len();
+        } else if self.n == 1 {
+            self.l1 = bytes.len();
+            if bytes.len() == 1 {
+                self.b1 = bytes[0];
+            }
+        }
+        self.n += 1;
+    }
+}
+
+fn hash_any_contract(pre: (Repr, Ghost)) {
+    let (r, g) = pre;
+    let f = Frame::snapshot(&r, &g);
+    let want = text_ptr(&r, &g);
+    let a = LeanString(r);
+    let mut h = PtrHasher { n: 0, p0: core::ptr::null(), l0: 0, l1: 0, b1: 0 };
+    a.hash(&mut h);
+    obl!(h.n == 2, "hash.exactly_two_writes_like_str", "C17");
+    obl!(h.p0 == text_ptr(&a.0, &g) && h.l0 == g.len, "hash.first_write_is_exactly_the_text_slice", "C17");
+    obl!(h.l1 == 1 && h.b1 == 0xff, "hash.second_write_is_the_0xff_terminator", "C17");
+    obl!(f.same_bits(&a.0) && f.no_alloc_calls(), "hash.read_only", "C17,C02");
+    cov!(g.len > 16 && h.n == 2, "hash.any_len_reachable");
+    let _ = want;
+    core::mem::forget(a);
+}
+
+// @harness name=hash_any_heap props=C17 class=U tier=quick big=yes fn=Hash
+#[kani::proof]
+#[kani::stub(alloc::alloc::alloc, v_alloc)]
+#[kani::stub(alloc::alloc::dealloc, v_dealloc)]
+#[kani::stub(alloc::alloc::realloc, v_realloc)]
+fn hash_any_heap() {
+    hash_any_contract(any_heap(MAX_CAP));
+}
+
+// @harness name=hash_any_static props=C17 class=U tier=quick big=yes fn=Hash
+#[kani::proof]
+#[kani::stub(alloc::alloc::alloc, v_alloc)]
+#[kani::stub(alloc::alloc::dealloc, v_dealloc)]
+#[kani::stub(alloc::alloc::realloc, v_realloc)]
+fn hash_any_static() {
+    hash_any_contract(any_static(MAX_CAP));
+}
+
+// @harness name=hash_any_reach props=C17 class=U tier=quick fn=Hash covers=hash.any_len_reachable
+#[kani::proof]
+#[kani::stub(alloc::alloc::alloc, v_alloc)]
+#[kani::stub(alloc::alloc::dealloc, v_dealloc)]
+#[kani::stub(alloc::alloc::realloc, v_realloc)]
+fn hash_any_reach() {
+    arm_covers();
+    hash_any_contract(any_repr(REACH_CAP));
+}
+
+struct PtrSink {
+    base: *const u8,
+    total: usize,
+    in_order: bool,
+}
+impl core::fmt::Write for PtrSink {
+    fn write_str(&mut self, s: &str) -> core::fmt::Result {
+        // empty pieces print nothing; a non-empty piece must be the next slice of the text
+        if s.len() != 0 {
+            if s.as_ptr() != self.base.wrapping_add(self.total) {
+                self.in_order = false;
+            }
+            self.total = self.total.wrapping_add(s.len());
+        }
+        Ok(())
+    }
+}
+
+fn display_any_contract(pre: (Repr, Ghost)) {
+    use core::fmt::Write;
+    let (r, g) = pre;
+    let f = Frame::snapshot(&r, &g);
+    let a = LeanString(r);
+    let mut s = PtrSink { base: text_ptr(&a.0, &g), total: 0, in_order: true };
+    let res = write!(s, "{}", a);
+    obl!(res.is_ok(), "display.ok_when_the_sink_is_ok", "C17");
+    // structural: the pieces handed to the sink are slices of the text itself, in order (a
+    // formatter that copies the text first would need the bounded `display_one` instead)
+    sobl!(s.in_order, "display.pieces_are_consecutive_slices_of_the_text", "C17");
+    obl!(!s.in_order || s.total == g.len, "display.prints_the_whole_text_and_nothing_else", "C17");
+    obl!(f.same_bits(&a.0) && f.no_alloc_calls(), "display.read_only", "C17,C02");
+    cov!(g.len > 16 && s.total == g.len, "display.any_len_reachable");
+    core::mem::forget(a);
+}
+
+// @harness name=display_any_heap props=C17 class=U tier=quick big=yes fn=Display
+#[kani::proof]
+#[kani::stub(alloc::alloc::alloc, v_alloc)]
+#[kani::stub(alloc::alloc::dealloc, v_dealloc)]
+#[kani::stub(alloc::alloc::realloc, v_realloc)]
+fn display_any_heap() {
+    display_any_contract(any_heap(MAX_CAP));
+}
+
+// @harness name=display_any_static props=C17 class=U tier=quick big=yes fn=Display
+#[kani::proof]
+#[kani::stub(alloc::alloc::alloc, v_alloc)]
+#[kani::stub(alloc::alloc::dealloc, v_dealloc)]
+#[kani::stub(alloc::alloc::realloc, v_realloc)]
+fn display_any_static() {
+    display_any_contract(any_static(MAX_CAP));
+}
+
+// @harness name=display_any_reach props=C17 class=U tier=quick fn=Display covers=display.any_len_reachable
+#[kani::proof]
+#[kani::stub(alloc::alloc::alloc, v_alloc)]
+#[kani::stub(alloc::alloc::dealloc, v_dealloc)]
+#[kani::stub(alloc::alloc::realloc, v_realloc)]
+fn display_any_reach() {
+    arm_covers();
+    display_any_contract(any_repr(REACH_CAP));
+}
+
 /// sink that records what the formatting machinery hands over
 struct Sink {
     buf: [u8; 24],
